@@ -251,6 +251,10 @@ def run(ctx):
             ctx.count("shift:" + ("adaptive" if adaptive else "fixed"))
             ctx.nontrivial(("s", name, t0, tf, dt, c))
 
+    # whole fixed-step runs with states against the Lean whole-run model DV.Run (own random stream: the scenarios above keep theirs)
+    import random as _random, runsim
+    runsim.whole_run_block(ctx, _random.Random(ctx.seed * 7919 + 4), 3 if ctx.quick() else 24)
+
 
 def replay(rep):
     return False
